@@ -163,7 +163,7 @@ Proof. intros F T. rewrite map_setn. apply Forall_setn; auto. Qed.
 Lemma inv_step st o : inv st -> inv (q_step st o).
 Proof.
   intros [Hc Htp Htv Hw]. destruct st as [h pool v]. simpl in *.
-  destruct o as [i t|i j|i j|i|i|i| | |i k|i|k|i j|i| |k]; simpl.
+  destruct o as [i t|i j|i j|i|i|i| | |i k|i|k|i j|i| |i t|k]; simpl.
   - (* Make *)
     destruct (nth_error pool i) as [[|old]|] eqn:Ei; [| |constructor; auto].
     + constructor; simpl.
@@ -323,6 +323,7 @@ Proof.
     + intros id. specialize (Hc id). rewrite cnt_app in Hc. simpl in Hc. specialize (L id). lia.
     + eapply Forall_typed_mono; eauto.
     + eapply Forall_typed_mono; eauto.
+  - (* MakeThrows *) constructor; auto.
   - (* VecErase *)
     destruct (nth_error v k) as [p|] eqn:Ek; [|constructor; auto]. simpl.
     destruct (nth_error_split v k Ek) as (l1 & l2 & Ev & El). subst v k.
@@ -414,7 +415,7 @@ Qed.
 Theorem moved_from_and_reset_empty st o j :
   q_applicable st o = true -> must_be_empty o = Some j -> slot_is_null (q_step st o) j = true.
 Proof.
-  destruct st as [h pool v]. unfold slot_is_null. destruct o as [i t|i j'|i j'|i|i|i| | |i k|i|k|i j'|i| |k]; simpl; try discriminate.
+  destruct st as [h pool v]. unfold slot_is_null. destruct o as [i t|i j'|i j'|i|i|i| | |i k|i|k|i j'|i| |i t|k]; simpl; try discriminate.
   - intros A [= ->]. destruct (nth_error pool i) as [[|?]|] eqn:Ei; try discriminate.
     destruct (is_live (nth_error pool j)) as [pj|] eqn:Ej; [|discriminate]. apply is_live_some in Ej. simpl.
     assert (i <> j) by (intros ->; congruence).
@@ -572,7 +573,7 @@ Qed.
 (* one operation never forgets an object, changes its type, revives it or removes a destruction record — in every state *)
 Theorem heap_extends_step st o : heap_extends (heap st) (heap (q_step st o)) = true.
 Proof.
-  destruct st as [h pool v]. destruct o as [i t|i j|i j|i|i|i| | |i k|i|k|i j|i| |k]; simpl.
+  destruct st as [h pool v]. destruct o as [i t|i j|i j|i|i|i| | |i k|i|k|i j|i| |i t|k]; simpl.
   - destruct (nth_error pool i) as [[|old]|]; simpl; try apply heap_extends_refl.
     + apply heap_extends_app.
     + eapply heap_extends_trans; [apply heap_extends_app | apply heap_extends_release].
@@ -594,5 +595,10 @@ Proof.
     destruct (is_live (nth_error pool j)); simpl; apply heap_extends_refl.
   - destruct (nth_error pool i) as [[|?]|]; simpl; apply heap_extends_refl.
   - destruct (rev v); simpl; [apply heap_extends_refl | apply heap_extends_release].
+  - apply heap_extends_refl.
   - destruct (nth_error v k); simpl; [apply heap_extends_release | apply heap_extends_refl].
 Qed.
+
+(* a make_quaint whose payload constructor throws creates nothing and destroys nothing *)
+Theorem failed_make_changes_nothing st i t : q_step st (MakeThrows i t) = st.
+Proof. reflexivity. Qed.
